@@ -23,11 +23,11 @@ Fixpoint defs_eqb (st: defs) (e: list (string * string)) : bool :=
 Definition b2k (b: bool) : kv := KBool b.
 
 (* the context as the implementation computes it (K9), for a direct call or through a builder *)
-Definition ctx_for (builder: bool) (wd: bool) (ar D p: kv) : res kv :=
+Definition ctx_for (builder: bool) (wd: bool) (ctx ar D p: kv) : res kv :=
   if builder
   then bind (builder_init (KNs []) (eff_dialect D) ar p (KTuple []))
             (fun c0 => build_ctx c0 builder_build_with_definitions KNone KNone KNone (KTuple []))
-  else build_ctx KNone (b2k wd) ar D p (KTuple []).
+  else build_ctx ctx (b2k wd) ar D p (KTuple []).
 
 Definition uri_of (c: kv) : option string :=
   match k_getattr2 c (KStr "dialect") with
@@ -37,11 +37,11 @@ Definition uri_of (c: kv) : option string :=
 (* one correspondence case: class table, (all_refs, dialect, ref_prefix), with_definitions, with_dialect_uri,
    builder?, roots, expected canonical documents, expected definitions, expected RecursionError *)
 Definition mcase : Type :=
-  (ctab * (kv * kv * kv) * (bool * bool) * bool * list ty * list string * list (string * string) * bool)%type.
+  (ctab * kv * (kv * kv * kv) * (bool * bool) * bool * list ty * list string * list (string * string) * bool)%type.
 
 Definition corr_ok (c: mcase) : bool :=
-  let '(E, (ar, D, p), (wd, wu), builder, roots, exp_docs, exp_defs, exp_rec) := c in
-  match ctx_for builder wd ar D p with
+  let '(E, pctx, (ar, D, p), (wd, wu), builder, roots, exp_docs, exp_defs, exp_rec) := c in
+  match ctx_for builder wd pctx ar D p with
   | Ok ctx =>
       match cfg_of_ctx ctx with
       | Some cfg =>
